@@ -109,12 +109,31 @@ func (c *tqClient) Batch(remote string, bReq *batchRequest) (*BatchResponse, err
 		return nil, lfshttp.NewStatusCodeError(res)
 	}
 
+	// A response may contain null where an object or an action is
+	// expected. Such an entry names nothing: drop it here, so that the
+	// transfer queue reports the objects the response does not list
+	// instead of dereferencing a nil pointer.
+	objects := bRes.Objects[:0]
 	for _, obj := range bRes.Objects {
+		if obj == nil {
+			continue
+		}
 		obj.Missing = missing[obj.Oid]
-		for _, a := range obj.Actions {
+		for rel, a := range obj.Actions {
+			if a == nil {
+				delete(obj.Actions, rel)
+				continue
+			}
 			a.createdAt = requestedAt
 		}
+		for rel, a := range obj.Links {
+			if a == nil {
+				delete(obj.Links, rel)
+			}
+		}
+		objects = append(objects, obj)
 	}
+	bRes.Objects = objects
 
 	return bRes, nil
 }
